@@ -21,6 +21,9 @@ func (e *Exec) newAny(cached Value) Ptr {
 }
 
 func anyOf(e *Exec, v Value) *ModelObj {
+	if iv, ok := v.(IfaceV); ok {
+		v = iv.V
+	}
 	if p, ok := v.(Ptr); ok {
 		if p.O == nil {
 			e.goPanicStr("runtime error: invalid memory address or nil pointer dereference (nil *Any)")
